@@ -355,7 +355,13 @@ func runCheck(repo, verifDir, prop, tier string) int {
 	verify := func(t target) {
 		e.selfIface = t.selfIface
 		e.exemptNext = t.exempt
-		vc := e.verifyFunc(t.fn, t.ct, cr.slice, cr.safety, t.extra)
+		safety := cr.safety
+		if cr.prop == "C17" && !(strings.Contains(t.fn.Name(), "InitGenesis") || strings.Contains(t.fn.Name(), "Validate") || strings.HasPrefix(t.fn.Name(), "SetPaused") || strings.HasPrefix(t.fn.Name(), "SetDispatched") || t.fn.Name() == "SetParams") {
+			// C17 claims panic freedom for validation and initialisation (the module panics on an init error);
+			// the export functions are proved functionally only
+			safety = false
+		}
+		vc := e.verifyFunc(t.fn, t.ct, cr.slice, safety, t.extra)
 		e.selfIface = nil
 		vc.discharge(SolveOpts{Dir: qdir, Timeouts: timeouts, Parallel: 16, Seed: seed, Second: tier == "thorough"}, cr.tally)
 		cr.vcs = append(cr.vcs, vc)
